@@ -45,22 +45,28 @@ package storage
 //@ func fs.FileSystem.MustRMAll
 //@   assumed file system (removes the segment directory)
 //
+//@ func segment.GetTimeRange
+//@   mode int
+//@   requires s != nil
+//@   ensures  result == s.TimeRange
 //@ func segment.incRef
 //@   mode int
-//@   requires s != nil && s.refCount < 1000000000
+//@   requires s != nil
+//@   opt wrap int32
 //@   modifies s.refCount
 //@   modifies s.index
 //@   loop 0 unroll 1
-//@   ensures  held:    result == nil && old(s.refCount) > 0 ==> s.refCount == old(s.refCount) + 1 && s.index == old(s.index)
+//@   ensures  held:    result == nil && old(s.refCount) > 0 && old(s.refCount) < 2147483647 ==> s.refCount == old(s.refCount) + 1 && s.index == old(s.index)
 //@   ensures  reopen:  result == nil && old(s.refCount) <= 0 ==> s.refCount == 1 && s.index != nil && s.mustBeDeleted == 0
 //@   ensures  failed:  result != nil ==> s.refCount == old(s.refCount)
 //@   ensures  never-reopen-deleted: old(s.refCount) <= 0 && s.mustBeDeleted != 0 ==> result != nil && s.index == old(s.index)
 //@ func segment.acquire
 //@   mode int
-//@   requires s != nil && s.refCount < 1000000000
+//@   requires s != nil
+//@   opt wrap int32
 //@   modifies s.refCount
 //@   modifies s.index
-//@   ensures  held:    result == nil && old(s.refCount) > 0 ==> s.refCount == old(s.refCount) + 1 && s.index == old(s.index)
+//@   ensures  held:    result == nil && old(s.refCount) > 0 && old(s.refCount) < 2147483647 ==> s.refCount == old(s.refCount) + 1 && s.index == old(s.index)
 //@   ensures  reopen:  result == nil && old(s.refCount) <= 0 ==> s.refCount == 1 && s.index != nil && s.mustBeDeleted == 0
 //@   ensures  failed:  result != nil ==> s.refCount == old(s.refCount)
 //@   ensures  never-reopen-deleted: old(s.refCount) <= 0 && s.mustBeDeleted != 0 ==> result != nil && s.index == old(s.index)
@@ -108,10 +114,26 @@ package storage
 //@ spec func othersUntouched(sc *segmentController, tt []Segment) bool =
 //@     forall k :: 0 <= k && k < len(sc.lst) ==> (exists j :: 0 <= j && j < len(tt) && ref(tt[j]) == ref(sc.lst[k])) || sc.lst[k].refCount == old(sc.lst[k].refCount)
 //
+// selectSegments: what callers rely on for every controller (unbounded): the result holds non-nil segments of the list.
+//@ func segmentController.selectSegments
+//@   mode int
+//@   opt wrap int32
+//@   requires sc != nil && lstOK(sc)
+//@   modifies allof(segment.refCount)
+//@   modifies allof(segment.index)
+//@   inline GetTimeRange
+//@   loop 2 unroll 1
+//@   ensures  none:   result1 != nil ==> len(result0) == 0
+//@   ensures  nonnil: forall j :: 0 <= j && j < len(result0) ==> result0[j] != nil
+//@   ensures  fresh-list: result0 == nil || fresh(result0)
+//@   loop 0 invariant err == nil && last == len(sc.lst) - 1 && (tt == nil || fresh(tt))
+//@   loop 0 invariant nonnil: forall j :: 0 <= j && j < len(tt) ==> tt[j] != nil
+//@   loop 1 invariant nonnil: forall j :: 0 <= j && j < len(tt) ==> tt[j] != nil
+//
 // BOUNDED stand-in (labelled, not counted as proved): the quantified "which segments are pinned" invariants of this
 // loop nest need existential witnesses the solvers do not find, so the function is checked by complete unrolling for
 // controllers holding at most 3 segments.
-//@ func segmentController.selectSegments
+//@ func segmentController.selectSegments#bounded
 //@   mode int
 //@   opt bounded controller lists of at most 2 segments (loops unrolled completely)
 //@   requires sc != nil && lstOK(sc) && len(sc.lst) <= 2
@@ -125,9 +147,27 @@ package storage
 //@   ensures  at-most-one-pin: result1 == nil ==> (len(sc.lst) < 1 || sc.lst[0].refCount <= old(sc.lst[0].refCount) + 1) && (len(sc.lst) < 2 || sc.lst[1].refCount <= old(sc.lst[1].refCount) + 1)
 //@   ensures  pins-returned: result1 == nil && reopenClosed ==> len(result0) <= len(sc.lst) && (forall j :: 0 <= j && j < len(result0) ==> result0[j] != nil && result0[j].refCount >= 1)
 //
-// segments(): the list handed to housekeeping (rotation, retention). Same accounting question as selectSegments.
-// BOUNDED stand-in for at most 2 segments.
+// segments(): the list handed to housekeeping (rotation, retention): element k of the result is sc.lst[k]; with
+// reopenClosed every segment is pinned (closed ones reopened), otherwise only segments that are already held; a
+// failure leaves every reference count as it was.
 //@ func segmentController.segments
+//@   mode int
+//@   opt wrap int32
+//@   requires sc != nil && lstOK(sc)
+//@   modifies allof(segment.refCount)
+//@   modifies allof(segment.index)
+//@   loop 2 unroll 1
+//@   ensures  none: result1 != nil ==> len(result0) == 0
+//@   ensures  all: result1 == nil ==> len(result0) == len(sc.lst) && fresh(result0) && (forall k :: 0 <= k && k < len(sc.lst) ==> result0[k] == sc.lst[k])
+//@   loop 0 invariant err == nil && len(r) == len(sc.lst) && fresh(r)
+//@   loop 0 invariant copied: forall k :: 0 <= k && k < range_i ==> r[k] == sc.lst[k]
+//@   loop 1 invariant 0 <= j && j <= i && i < len(sc.lst)
+//@   loop 1 decreases i - j
+//
+// BOUNDED stand-in (labelled, not counted as proved) for the reference accounting of segments(): controllers holding
+// at most 2 segments, loops unrolled completely. A failure leaves every reference count as it was; on success every
+// segment is pinned at most once.
+//@ func segmentController.segments#bounded
 //@   mode int
 //@   opt bounded controller lists of at most 2 segments (loops unrolled completely)
 //@   requires sc != nil && lstOK(sc) && len(sc.lst) <= 2
@@ -137,7 +177,7 @@ package storage
 //@   loop 1 unroll 2
 //@   loop 2 unroll 1
 //@   ensures  no-leak: result1 != nil ==> (len(sc.lst) < 1 || sc.lst[0].refCount == old(sc.lst[0].refCount)) && (len(sc.lst) < 2 || sc.lst[1].refCount == old(sc.lst[1].refCount))
-//@   ensures  all:     result1 == nil ==> len(result0) == len(sc.lst)
+//@   ensures  pinned:  result1 == nil && reopenClosed ==> (len(sc.lst) < 1 || sc.lst[0].refCount == old(sc.lst[0].refCount) + 1) && (len(sc.lst) < 2 || sc.lst[1].refCount == old(sc.lst[1].refCount) + 1)
 //
 // removeSeg: removes exactly the entry with the given id (the first one), keeps the order of the others
 //@ func segmentController.removeSeg
@@ -146,6 +186,8 @@ package storage
 //@   requires forall k :: 0 <= k && k < len(sc.lst) ==> sc.lst[k] != nil
 //@   modifies sc.lst
 //@   ensures  len(sc.lst) == old(len(sc.lst)) || len(sc.lst) == old(len(sc.lst)) - 1
+//@   ensures  inplace: sameobj(sc.lst, old(sc.lst)) && off(sc.lst) == off(old(sc.lst)) && cap(sc.lst) == cap(old(sc.lst))
+//@   ensures  nonnil: forall k :: 0 <= k && k < len(sc.lst) ==> sc.lst[k] != nil
 //@   loop 0 invariant samehdr(sc.lst, old(sc.lst)) && (forall k :: 0 <= k && k < len(sc.lst) ==> sc.lst[k] != nil)
 //
 //@ property C07
@@ -159,3 +201,103 @@ package storage
 //@   ensures  keep-one:  old(len(sc.lst)) <= 1 ==> !result0 && len(sc.lst) == old(len(sc.lst))
 //@   ensures  only-oldest: result0 ==> old(len(sc.lst)) >= 2 && old(sc.lst[0]).mustBeDeleted == 1 && len(sc.lst) >= old(len(sc.lst)) - 1
 //@   ensures  others-kept: forall k :: 1 <= k && k < old(len(sc.lst)) ==> old(sc.lst[k]).mustBeDeleted == old(old(sc.lst[k]).mustBeDeleted)
+//
+// scheduled retention: a segment is flagged for deletion only when its whole time range lies before the deadline
+//@ func segmentController.remove
+//@   mode int
+//@   requires sc != nil && lstOK(sc)
+//@   modifies sc.lst
+//@   modifies sc.lst[0:cap(sc.lst)]
+//@   modifies allof(segment.refCount)
+//@   modifies allof(segment.index)
+//@   modifies allof(segment.mustBeDeleted)
+//@   ensures  only-expired: forall s *segment :: s.mustBeDeleted != old(s.mustBeDeleted) ==> ite(s.IncludeEnd, s.End < deadline, s.End <= deadline)
+//@   ensures  reported: !result0 ==> (forall s *segment :: s.mustBeDeleted == old(s.mustBeDeleted))
+//@   loop 0 invariant only-expired: forall s *segment :: s.mustBeDeleted != old(s.mustBeDeleted) ==> ite(s.IncludeEnd, s.End < deadline, s.End <= deadline)
+//@   loop 0 invariant reported: !hasSegment ==> (forall s *segment :: s.mustBeDeleted == old(s.mustBeDeleted))
+//@   loop 0 invariant elems: forall k :: 0 <= k && k < len(ss) ==> ss[k] != nil
+//@   loop 0 invariant lst: (forall k :: 0 <= k && k < len(sc.lst) ==> sc.lst[k] != nil) && sameobj(sc.lst, old(sc.lst)) && off(sc.lst) == off(old(sc.lst)) && cap(sc.lst) == cap(old(sc.lst)) && len(sc.lst) <= old(len(sc.lst))
+//
+// queries never see a segment whose whole range lies before now - TTL, even before retention physically removes it
+//@ ghost var retentionDeadline time.Time
+//@ func segmentController.getRetentionDeadline
+//@   assumed clock.Now() - TTL (clock and TTL arithmetic are external); the value is recorded in a ghost variable
+//@   modifies retentionDeadline
+//@   ensures  result == retentionDeadline
+//@ func database.SelectSegments
+//@   mode int
+//@   requires d != nil && d.segmentController != nil && lstOK(d.segmentController)
+//@   modifies allof(segment.refCount)
+//@   modifies allof(segment.index)
+//@   modifies allof(segment.mustBeDeleted)
+//@   modifies retentionDeadline
+//@   inline GetTimeRange
+//@   ensures  hidden: result1 == nil && !d.disableRetention ==> (forall j :: 0 <= j && j < len(result0) ==> !ite(result0[j].IncludeEnd, result0[j].End < retentionDeadline, result0[j].End <= retentionDeadline)) || len(result0) == 0
+//@   loop 0 invariant nonnil: forall j :: 0 <= j && j < len(segments) ==> segments[j] != nil
+//@   loop 0 invariant window: len(kept) <= range_i && sameobj(kept, segments) && off(kept) == off(segments) && cap(kept) == cap(segments)
+//@   loop 0 invariant kept-live: forall j :: 0 <= j && j < len(kept) ==> kept[j] != nil && !ite(kept[j].IncludeEnd, kept[j].End < deadline, kept[j].End <= deadline)
+//
+//@ property C06
+// ---- time segments partition the timeline: on-demand creation ----
+// list invariant: half-open ranges [Start, End), ascending and non-overlapping
+//@ spec func segsWF(sc *segmentController) bool =
+//@     (forall k :: 0 <= k && k < len(sc.lst) ==> sc.lst[k] != nil && pidx(sc.lst[k]) == 0 && sc.lst[k].Start < sc.lst[k].End && sc.lst[k].IncludeStart && !sc.lst[k].IncludeEnd) &&
+//@     (forall a, b :: 0 <= a && a < b && b < len(sc.lst) ==> sc.lst[a].End <= sc.lst[b].Start)
+//
+// calendar arithmetic (time.Date / AddDate in a location) is external: assumed to be a grid
+//@ decl func gridNext(t time.Time) time.Time
+//@ func IntervalRule.Standard
+//@   assumed calendar arithmetic in the local time zone: aligns down to the grid; the instant lies in its bucket
+//@   pure
+//@   ensures result <= t && t < gridNext(result)
+//@ func IntervalRule.NextTime
+//@   assumed calendar arithmetic in the local time zone: the end of the bucket that starts at a grid point
+//@   pure
+//@   ensures result == gridNext(current) && current < result
+//@ func segmentController.getOptions
+//@   assumed returns the current options under a lock
+//@   pure
+//@   ensures result != nil
+//@ func segmentController.format
+//@   assumed formatting
+//@   pure
+//@ func segmentController.load
+//@   assumed opens the new segment directory (external) and inserts the segment into the sorted list
+//@   modifies sc.lst
+//@   ensures  result1 == nil ==> result0 != nil && result0.Start == start && result0.End == end && result0.IncludeStart && !result0.IncludeEnd
+//@ func fs.FileSystem.MkdirPanicIfExist
+//@   assumed file system
+//@ func fs.FileSystem.CreateLockFile
+//@   assumed file system
+//@ func fs.File.Write
+//@   assumed file system
+//@ func fs.Writer.Write
+//@   assumed file system
+//@ func json.Marshal
+//@   assumed encoding/json
+//@   pure
+//@ func path.Join
+//@   assumed path manipulation
+//@   pure
+//@ func filepath.Join
+//@   assumed path manipulation
+//@   pure
+//@ func time.Time.Format
+//@   assumed formatting
+//@   pure
+//
+// create: returns the segment whose range contains the requested instant (an existing one, or a new one on the grid
+// clipped by its neighbours) and never creates overlap.
+//@ func segmentController.create
+//@   mode int
+//@   requires sc != nil && segsWF(sc)
+//@   modifies sc.lst
+//@   allow panic when true
+//@   ensures  found:        result1 == nil ==> result0 != nil
+//@   ensures  contains-low:  result1 == nil ==> result0.Start <= start
+//@   ensures  contains-high: result1 == nil ==> start < result0.End
+//@   loop 0 invariant last == len(sc.lst) - 1 && start == old(start)
+//@   loop 0 invariant nohit: forall k :: last - range_i < k && k <= last ==> !(sc.lst[k].Start <= start && start < sc.lst[k].End)
+//@   loop 1 invariant bump: alignedStart <= start && start <= old(start) && stdEnd == gridNext(alignedStart) && old(start) < stdEnd
+//@   loop 1 invariant nohit: forall k :: 0 <= k && k < len(sc.lst) ==> !(sc.lst[k].Start <= old(start) && old(start) < sc.lst[k].End)
+//@   loop 1 invariant nxt: next == nil || (next.Start > old(start) && pidx(next) == 0)
